@@ -186,7 +186,7 @@ _BUILTINS = ("Decimal", "Fraction", "Term", "TableConverter", "Quantity", "len",
              "str", "int", "tuple", "list", "dict", "sorted", "reversed", "isinstance", "sum", "min", "max",
              "abs", "round", "repr", "float", "bool", "getattr", "print", "map", "filter", "any", "all", "set", "iter",
              "List", "Tuple", "Dict", "Optional", "Union", "MutableMapping", "Mapping", "Sequence", "Iterable",
-             "Iterator", "Callable", "Any", "Element", "suppress")
+             "Iterator", "Callable", "Any", "Element", "suppress", "type", "Rational", "Real", "Integral", "Number")
 
 
 class Catalogue:
@@ -713,7 +713,8 @@ class Catalogue:
         for op, rn in zip(n.ops, n.comparators):
             r = self._eval(rn, env)
             if isinstance(op, (ast.Is, ast.IsNot)):
-                same = l is r or (l is None and r is None) or (isinstance(l, bool) and isinstance(r, bool) and l == r)
+                same = l is r or (l is None and r is None) or (isinstance(l, bool) and isinstance(r, bool) and l == r) \
+                    or (isinstance(l, CBuiltin) and isinstance(r, CBuiltin) and l.name == r.name)
                 ok = same if isinstance(op, ast.Is) else not same
             elif isinstance(op, (ast.In, ast.NotIn)):
                 try:
@@ -1198,6 +1199,22 @@ class Catalogue:
                 return [x for x in seq if self._truth(x)]
             if isinstance(args[0], CFunc):
                 return [x for x in seq if self._truth(self._call_func(args[0], [x], {}, node))]
+        if name == "type" and len(args) == 1:
+            v = args[0]
+            if isinstance(v, bool):
+                return CBuiltin("bool")
+            for py, nm in ((int, "int"), (float, "float"), (str, "str"), (tuple, "tuple"), (list, "list"), (dict, "dict")):
+                if isinstance(v, py):
+                    return CBuiltin(nm)
+            if isinstance(v, Fraction):
+                return CBuiltin("Decimal")      # exact non-int numbers of the catalogue are Decimals / Fractions
+            if v is None:
+                return CBuiltin("NoneType")
+            if isinstance(v, CUnit):
+                return CBuiltin("Unit")
+            if isinstance(v, Prefix):
+                return CBuiltin("SIPrefix")
+            self.err(f"type of {v!r}", node)
         if name == "print":
             return None
         if name == "SIPrefix":
